@@ -541,6 +541,17 @@ COMPONENT_CASES = [
     ('observation', 'partially_occluded', {'area': [[-3, 0], [-2, 2]]}),
     ('observation', 'raytracing', {'area': [[-3, 1], [-1, 2]]}),
     ('observation', 'stochastic_raytracing', {'area': [[-2, 0], [-1, 1]]}),
+    ('visibility', 'fully_transparent', {}),
+    ('visibility', 'partially_occluded', {}),
+    ('visibility', 'raytracing', {}),
+    ('visibility', 'raytracing', {'absolute_counts': False, 'threshold': 0.5}),
+    ('visibility', 'raytracing', {'threshold': 2}),
+    ('visibility', 'stochastic_raytracing', {}),
+    ('reward', 'living_reward', {'reward': 0.0}),
+    ('reward', 'reach_exit', {'reward_on': 0.0, 'reward_off': 1.5}),
+    ('reward', 'getting_closer', {'object_type': 'Exit', 'reward_further': 0.0, 'reward_closer': 0.0}),
+    ('reset', 'empty', {'shape': [5, 6], 'random_agent': False, 'random_exit': True}),
+    ('reset', 'dynamic_obstacles', {'shape': [5, 5], 'num_obstacles': 0, 'random_agent': True}),
     ('reset', 'empty', {'shape': [5, 6], 'random_agent': True}),
     ('reset', 'rooms', {'shape': [7, 7], 'layout': [2, 2]}),
     ('reset', 'keydoor', {'shape': [6, 7]}),
@@ -556,9 +567,9 @@ def _component(ctx, i, r, site):
     """factory(name, **kw) behaves like the registry function called with the accepted parameters"""
     import numpy as np
 
-    from gym_gridverse.envs import observation_functions as o, reset_functions as rs, reward_functions as rw, terminating_functions as tm, transition_functions as tr
+    from gym_gridverse.envs import observation_functions as o, reset_functions as rs, reward_functions as rw, terminating_functions as tm, transition_functions as tr, visibility_functions as vs
 
-    factories = {'reset': rs.factory, 'transition': tr.factory, 'reward': rw.factory, 'terminating': tm.factory, 'observation': o.factory}
+    factories = {'reset': rs.factory, 'transition': tr.factory, 'reward': rw.factory, 'terminating': tm.factory, 'observation': o.factory, 'visibility': vs.factory}
     kind, name, params = r.choice(COMPONENT_CASES)
     data = dict(params, name=name)
     extra = r.random() < 0.5
@@ -574,7 +585,22 @@ def _component(ctx, i, r, site):
         d2['unused_parameter'] = 3
         ctx.fault('component_extra_param')
     d2_before = copy.deepcopy(d2)
-    real = sut(getattr(yf, f'factory_{kind}_function'), d2)
+    route = 'yaml_level' if r.random() < 0.6 else 'module_factory'
+    if route == 'yaml_level':
+        real = sut(getattr(yf, f'factory_{kind}_function'), d2)
+    else:
+        # the component's own factory(name, **kwargs), keyword values converted by M-config's reading
+        from gym_gridverse.geometry import Area, Shape, distance_function_factory
+        from gym_gridverse.grid_object import Color
+
+        kw = {}
+        for k, v in d2.items():
+            if k == 'name':
+                continue
+            kw[k] = (Shape(*v) if k == 'shape' else tuple(v) if k == 'layout' else Area(tuple(v[0]), tuple(v[1])) if k == 'area'
+                     else object_type(v) if k == 'object_type' else set(Color[c] for c in v) if k == 'colors'
+                     else distance_function_factory(v) if k == 'distance_function' else v)
+        real = sut(factories[kind], name, **kw)
     if d2 != d2_before:
         ctx.violate('config', 'input_data_modified', f'{kind}:{name}', 'component_factory', i, f'factory_{kind}_function changed its input {d2_before} -> {d2}')
         return
@@ -597,10 +623,15 @@ def _component(ctx, i, r, site):
             return out if isinstance(out, Raised) else state_key(s)
         if kind in ('reward', 'terminating'):
             return sut(lambda: repr(f(mk_state(world), a, mk_state(world2), rng=g)))
+        if kind == 'visibility':
+            from gym_gridverse.geometry import Position
+
+            st = mk_state(world)
+            return sut(lambda: f(st.grid, Position(st.grid.shape.height - 1, st.agent.position.x), rng=g).astype(int).tolist())
         return sut(lambda: state_key(f(mk_state(world), rng=g)))
 
     x, y = call(real), call(model)
-    ctx.probe('component:' + kind)
+    ctx.probe('component:' + kind + ':' + route)
     xr, yr = isinstance(x, Raised), isinstance(y, Raised)
     if xr != yr or (not xr and x != y):
         ctx.violate('config', 'component_differs_from_function', f'{kind}:{name}', 'extra_param' if extra else '-', i, f'{d2}: factory result behaves differently from the registry function with the accepted parameters ({x!r} vs {y!r})')
